@@ -7,13 +7,13 @@ Open Scope N_scope.
 (* ---------- booleans / equality ---------- *)
 Lemma beq_true : forall x y, beq x y = true -> x = y.
 Proof.
-  intros [a b c d] [a' b' c' d']; unfold beq; simpl; intro H.
-  repeat rewrite andb_true_iff in H. destruct H as [[[H1 H2] H3] H4].
-  apply N.eqb_eq in H1, H2, H3. apply eqb_prop in H4. subst; reflexivity.
+  intros [a b c d e] [a' b' c' d' e']; unfold beq; simpl; intro H.
+  repeat rewrite andb_true_iff in H. destruct H as [[[[H1 H2] H3] H4] H5].
+  apply N.eqb_eq in H1, H2, H3. apply eqb_prop in H4. apply eqb_prop in H5. subst; reflexivity.
 Qed.
 Lemma beq_refl : forall x, beq x x = true.
 Proof.
-  intros [a b c d]; unfold beq; simpl. rewrite !N.eqb_refl, eqb_reflx. reflexivity.
+  intros [a b c d e]; unfold beq; simpl. rewrite !N.eqb_refl, !eqb_reflx. reflexivity.
 Qed.
 Lemma memb_In : forall b l, memb b l = true -> In b l.
 Proof.
@@ -116,7 +116,7 @@ Proof.
   induction l as [|x l IH]; intros c e.
   - reflexivity.
   - destruct x; simpl.
-    + destruct (extendsb c b && okb b); auto.
+    + destruct (extendsb c b && okb b && stb b); auto.
     + destruct c; auto. destruct (beq b0 b); auto.
 Qed.
 
@@ -180,7 +180,7 @@ Ltac split_andb :=
 (* ---------- invariant 1: the source ---------- *)
 Definition InvSrc (s : state) : Prop :=
   linkedb (src s) = true /\ incl (src s) (hist s) /\
-  (forall b, In b (hist s) -> okb b = true /\ bid b < nid s /\ num b < W64 - 2) /\
+  (forall b, In b (hist s) -> okb b = true /\ bid b < nid s /\ num b < W64 - 2 /\ stb b = true) /\
   (forall x y, In x (hist s) -> In y (hist s) -> bid x = bid y -> x = y).
 
 Lemma new_block_extends : forall c id, extendsb c (new_block c id) = true.
@@ -201,6 +201,7 @@ Proof.
     + destruct H as [<-|H]; auto. apply Hok; auto.
     + destruct H as [<-|H]; [lia|]. apply Hok in H. lia.
     + destruct H as [<-|H]; [exact E|]. apply Hok; auto.
+    + destruct H as [<-|H]; [destruct (src s); reflexivity|]. apply Hok; auto.
     + intros x y [<-|Hx] [<-|Hy] Eb; auto.
       * apply Hok in Hy. lia.
       * apply Hok in Hx. lia.
@@ -208,6 +209,7 @@ Proof.
     repeat split; auto.
     + apply linked_skipn; auto.
     + eapply incl_tran; [apply incl_skipn|auto].
+    + apply Hok; auto.
     + apply Hok; auto.
     + apply Hok; auto.
     + apply Hok; auto.
@@ -224,18 +226,23 @@ Qed.
 (* ---------- invariant 2: the local chain and the pipeline ---------- *)
 Definition InvLoc (s : state) : Prop :=
   replay [] (log s) = Some (loc s) /\ linkedb (loc s) = true /\ incl (loc s) (hist s) /\
-  (forall b, In b (infl s) -> okb b = true -> In b (hist s)) /\
-  (forall b, In b (pend s) -> okb b = true /\ In b (hist s)) /\
+  (forall b, In b (infl s) -> okb b = true -> In (gen b) (hist s)) /\
+  (forall b, In b (pend s) -> okb b = true /\ In (gen b) (hist s)) /\
   (forall h g, lat s = Some (h, g) -> In h (hist s)).
 
 Lemma tip_In : forall c b, tip c = Some b -> In b c.
 Proof. destruct c; simpl; intros; [discriminate|]. injection H as <-; left; auto. Qed.
 
+Lemma gen_genuine : forall b, okb b = true -> stb b = true -> gen b = b.
+Proof. intros [a b c d e]; simpl; intros -> ->; reflexivity. Qed.
+Lemma gen_unstor : forall b, gen (unstor b) = gen b.
+Proof. intros [a b c d e]; reflexivity. Qed.
+
 Lemma InvLoc_step : forall s e s', InvSrc s -> InvLoc s -> step s e = Some s' -> InvLoc s'.
 Proof.
   intros s e s' HS HL H. unfold step in H.
   destruct e; break_step H;
-    destruct HS as [_ [Hsh _]]; destruct HL as [Hr [Hl [Hlh [Hif [Hp Hla]]]]];
+    destruct HS as [_ [Hsh [Hok _]]]; destruct HL as [Hr [Hl [Hlh [Hif [Hp Hla]]]]];
     unfold InvLoc; simpl;
     try (unfold stop_revert; simpl); repeat apply conj; try assumption.
   all: try (intros; discriminate).
@@ -243,7 +250,8 @@ Proof.
   all: try (apply incl_tl; assumption).
   all: try (intros; right; eauto; fail).
   all: try (intros x Hx; destruct (Hp _ Hx); split; [|right]; assumption).
-  all: try (intros x [<-|Hx] Ho; [apply Hsh; apply at_num_some in E; tauto | auto]; fail).
+  all: try (intros x [<-|Hx] Ho; [|auto]; rewrite ?gen_unstor; apply at_num_some in E; destruct E as [E _];
+            apply Hsh in E; rewrite gen_genuine; [assumption|apply Hok; assumption|apply Hok; assumption]).
   all: try (intros x [<-|Hx] Ho; [simpl in Ho; discriminate|auto]; fail).
   all: try (intros h' g Hg; injection Hg as <- _; apply Hsh, tip_In; assumption).
   all: try (intros h' g Hg; injection Hg as <- _; apply memb_In; assumption).
@@ -252,9 +260,12 @@ Proof.
   all: try (rewrite replay_app, Hr; unfold rstep; simpl; split_andb;
             match goal with Hm : memb ?b (pend _) = true |- _ =>
               apply memb_In in Hm; destruct (Hp _ Hm) as [Ho _]; rewrite Ho end;
-            match goal with He : extendsb _ _ = true |- _ => rewrite He end; reflexivity).
+            match goal with He : extendsb _ _ = true |- _ => rewrite He end;
+            match goal with Hs : stb _ = true |- _ => rewrite Hs end; reflexivity).
   all: try (split_andb; apply andb_true_iff; split; assumption).
-  all: try (split_andb; intros x [<-|Hx]; [apply Hp, memb_In; assumption|auto]; fail).
+  all: try (split_andb; intros x [<-|Hx]; [|auto];
+            match goal with Hm : memb ?b (pend _) = true |- _ =>
+              apply memb_In in Hm; destruct (Hp _ Hm) as [Ho Hg]; rewrite gen_genuine in Hg; assumption end).
   all: try (rewrite replay_app, Hr; unfold rstep; simpl; rewrite E0, beq_refl; reflexivity).
   all: try (rewrite E0 in Hl; eapply linked_tail; eauto; fail).
   all: try (rewrite E0 in Hlh; intros x Hx; apply Hlh; right; assumption).
